@@ -883,3 +883,182 @@ impl Scenario for UowSlots {
         "as uow_close, always with slots: Slot and LazySlot opened in wait / discard / delay_flush mode, second open attempts, guards mutated (unique values) and dropped on other threads, parent dropped first or last, force-flush guards racing. non-trivial / distinct as above"
     }
 }
+
+// ------------------------------------------------------------------------------------------
+// C06 — many entries on one thread: nested emission chains and sinks that panic
+// ------------------------------------------------------------------------------------------
+
+/// Holds the flush guard of the *next* entry of a chain and releases it when it is closed, i.e.
+/// while the entry that owns it is being emitted: emissions nest, one level per link.
+#[derive(Default)]
+pub struct Holder(pub Option<FlushGuard>);
+impl metrique::CloseValue for Holder {
+    type Closed = u64;
+    fn close(self) -> u64 {
+        drop(self.0);
+        0
+    }
+}
+
+#[metrics]
+#[derive(Default)]
+pub struct Link {
+    idx: u64,
+    next: Holder,
+}
+
+#[derive(Clone)]
+pub struct LinkSink(Arc<Mutex<Vec<u64>>>);
+impl EntrySink<RootMetric<Link>> for LinkSink {
+    fn append(&self, entry: RootMetric<Link>) {
+        let t = to_test_entry(&entry);
+        let idx = t.metrics.get("idx").map(|m| m.as_u64()).unwrap_or(u64::MAX);
+        self.0.lock().unwrap().push(idx);
+        if idx >= 1000 {
+            // a sink that rejects this entry loudly (caught by whoever dropped the entry)
+            std::panic::panic_any("harness: the sink panics on this entry");
+        }
+    }
+    fn flush_async(&self) -> FlushWait {
+        FlushWait::ready()
+    }
+}
+
+fn chain_part(sink: &LinkSink, depth: u64, panics: u64, base: u64) {
+    {
+        // entries whose append panics, one after the other on this thread
+        for k in 0..panics {
+            let e = Link { idx: 1000 + base + k, next: Holder(None) }.append_on_drop(sink.clone());
+            let _ = std::panic::catch_unwind(std::panic::AssertUnwindSafe(move || drop(e)));
+        }
+        // a chain: entry i holds the flush guard of entry i+1 and releases it while being closed
+        let mut owners: Vec<AppendAndCloseOnDrop<Link, LinkSink>> = (0..depth).map(|i| Link { idx: base + i, next: Holder(None) }.append_on_drop(sink.clone())).collect();
+        for i in (0..owners.len().saturating_sub(1)).rev() {
+            let g = owners[i + 1].flush_guard();
+            owners[i].next = Holder(Some(g));
+        }
+        // every owner but the head goes first (nothing is emitted: each waits for its predecessor)
+        while owners.len() > 1 {
+            drop(owners.pop());
+            detsim::yield_point();
+        }
+        drop(owners.pop());
+    }
+}
+
+fn chain_main(plan: &Value, got: Arc<Mutex<Vec<u64>>>) {
+    let sink = LinkSink(got);
+    let parts: Vec<Value> = ja(plan, "parts").to_vec();
+    let mut hs = vec![];
+    for (ti, th) in ja(plan, "threads").iter().enumerate() {
+        let parts: Vec<Value> = th.as_array().cloned().unwrap_or_default();
+        let sk = sink.clone();
+        hs.push(detsim::thread::spawn_named(&format!("c{}", ti + 1), move || {
+            for p in &parts {
+                chain_part(&sk, ju(p, "depth", 1), ju(p, "panics", 0), ju(p, "base", 0));
+            }
+        }));
+    }
+    for p in &parts {
+        chain_part(&sink, ju(p, "depth", 1), ju(p, "panics", 0), ju(p, "base", 0));
+    }
+    for h in hs {
+        let _ = h.join();
+    }
+}
+
+pub struct UowChain;
+
+impl Scenario for UowChain {
+    fn name(&self) -> &'static str {
+        "uow_chain"
+    }
+    fn property(&self) -> &'static str {
+        "C06"
+    }
+    fn weight(&self, _tier: Tier) -> u32 {
+        1
+    }
+    fn generate(&self, rng: &mut Rng, _tier: Tier) -> Value {
+        let mut base = 0u64;
+        let mut mk_parts = |rng: &mut Rng| -> Vec<Value> {
+            (0..1 + rng.below(3))
+                .map(|_| {
+                    let depth = *rng.pick(&[1u64, 2, 3, 5, 9, 12, 17, 40]);
+                    let panics = *rng.pick(&[0u64, 0, 1, 3, 8, 9, 20]);
+                    let p = json!({"depth": depth, "panics": panics, "base": base});
+                    base += 100;
+                    p
+                })
+                .collect()
+        };
+        let parts = mk_parts(rng);
+        let threads: Vec<Vec<Value>> = (0..rng.below(2)).map(|_| mk_parts(rng)).collect();
+        let sched = gen_sched(rng, &SchedOpts { est_choices: 100, threads: 2, jump_max_ns: 0, stall_clock_max_ns: 0, max_steps: 60_000 });
+        json!({"sched": sched, "parts": parts, "threads": threads})
+    }
+    fn run(&self, plan: &Value) -> Report {
+        let sched = sched_from_plan(plan);
+        let got: Arc<Mutex<Vec<u64>>> = Arc::new(Mutex::new(vec![]));
+        let (g2, p2) = (got.clone(), plan.clone());
+        let (out, _) = detsim::run(sched, move || chain_main(&p2, g2));
+        let got = got.lock().unwrap().clone();
+        let mut r = Report::default();
+        r.nontrivial = true;
+        r.case_sig = mix(out.sig, hash_value(&json!([plan.get("parts"), plan.get("threads")])));
+        let failure = out.failure.clone();
+        let mp = out.main_panic.clone();
+        absorb_outcome(&mut r, out);
+        let mut all_parts: Vec<Value> = ja(plan, "parts").to_vec();
+        for t in ja(plan, "threads") {
+            all_parts.extend(t.as_array().cloned().unwrap_or_default());
+        }
+        let mut max_depth = 0;
+        let mut panics = 0;
+        if failure.is_none() && mp.is_none() {
+            'parts: for p in &all_parts {
+                let (depth, base) = (ju(p, "depth", 1), ju(p, "base", 0));
+                max_depth = max_depth.max(depth);
+                panics += ju(p, "panics", 0);
+                for i in 0..depth {
+                    let n = got.iter().filter(|x| **x == base + i).count();
+                    if n != 1 {
+                        r.violation = Some(Violation::new(
+                            if n == 0 { "never_appended" } else { "appended_twice" },
+                            format!("entry {} of a chain of {depth} entries (each releasing the next one's flush guard while it is closed; {} appends had panicked on this thread before) was appended {n} times", base + i, ju(p, "panics", 0)),
+                        ));
+                        break 'parts;
+                    }
+                }
+            }
+        }
+        r.probe("nested_emission_depth_over_8", (max_depth > 8) as u64);
+        r.probe("appends_that_panicked", panics);
+        r.fault("sink_panics", panics);
+        r.states = vec![mix(max_depth.min(20), panics.min(20))];
+        r.sample = Some(json!({"parts": plan.get("parts"), "appended": got.iter().take(40).collect::<Vec<_>>()}));
+        if r.violation.is_none() {
+            match failure {
+                None => {}
+                Some(f @ detsim::Failure::Deadlock { .. }) => r.violation = Some(Violation::new("deadlock", format!("{f:?}"))),
+                Some(detsim::Failure::StepLimit { .. }) => r.inconclusive = true,
+                Some(f) => r.harness_error = Some(format!("simulation failed: {f:?}")),
+            }
+            if let Some(p) = mp {
+                if r.violation.is_none() {
+                    r.violation = Some(Violation::new("panic", format!("a thread emitting unit-of-work entries panicked: {p}")));
+                }
+            }
+        }
+        r
+    }
+    fn probes(&self) -> Vec<&'static str> {
+        vec!["nested_emission_depth_over_8", "appends_that_panicked"]
+    }
+    fn components(&self) -> Value {
+        uow_components()
+    }
+    fn rule(&self) -> &'static str {
+        "each run: on 1-2 threads, 1-3 parts each: first 0-20 entries whose sink panics in append (caught), then a chain of 1-40 entries where closing entry i releases the flush guard of entry i+1 (emissions nest, one level per link); every chain entry must be appended exactly once. non-trivial = every run; distinct = distinct plans"
+    }
+}
